@@ -827,3 +827,94 @@ func (e *Engine) SweepConcurrency(prop string) {
 	}
 	e.notes = appendUnique(e.notes, fmt.Sprintf("rely sweep: %d send statements / protected-field accesses in the package are all inside functions under contract", checked))
 }
+
+// SweepGlobals (C14): the confinement obligations are generated inside the functions under contract. A function of the
+// render-path packages that is *not* under contract (a new helper, say) would escape them, so: every use of a
+// package-level variable that is assigned anywhere after initialisation (element writes, field writes and & included)
+// outside the functions under contract - test files, init functions and variable initialisers aside - is a failed
+// obligation. sync.Pool / sync.Mutex / sync.Once values are exempt (safe for concurrent use by their documentation).
+func (e *Engine) SweepGlobals(prop string, pkgPaths []string) {
+	under := map[string]bool{}
+	for _, c := range e.ContractsFor(prop) {
+		under[contractKey(c.Pkg, c.Recv, strings.SplitN(c.Name, "$", 2)[0])] = true
+	}
+	n, seen := 0, 0
+	for _, path := range pkgPaths {
+		pkg := e.pkgs[path]
+		if pkg == nil {
+			continue
+		}
+		for _, file := range pkg.Syntax {
+			if strings.HasSuffix(pkg.Fset.Position(file.Pos()).Filename, "_test.go") {
+				continue
+			}
+			for _, d := range file.Decls {
+				fd, ok := d.(*ast.FuncDecl)
+				if !ok || fd.Body == nil || (fd.Recv == nil && fd.Name.Name == "init") {
+					continue
+				}
+				recv := ""
+				if fd.Recv != nil && len(fd.Recv.List) == 1 {
+					t := fd.Recv.List[0].Type
+					if st, ok := t.(*ast.StarExpr); ok {
+						t = st.X
+					}
+					if ix, ok := t.(*ast.IndexExpr); ok {
+						t = ix.X
+					}
+					if id, ok := t.(*ast.Ident); ok {
+						recv = id.Name
+					}
+				}
+				fn := contractKey(path, recv, fd.Name.Name)
+				if under[fn] {
+					continue
+				}
+				reported := map[*types.Var]bool{}
+				// &v handed to a sync/atomic function is an atomic access
+				atomicUse := map[*ast.Ident]bool{}
+				ast.Inspect(fd.Body, func(nd ast.Node) bool {
+					call, ok := nd.(*ast.CallExpr)
+					if !ok {
+						return true
+					}
+					if f := calleeFunc(pkg.TypesInfo, call); f != nil && f.Pkg() != nil && f.Pkg().Path() == "sync/atomic" {
+						for _, a := range call.Args {
+							if ue, ok := ast.Unparen(a).(*ast.UnaryExpr); ok && ue.Op == token.AND {
+								if id, ok := ast.Unparen(ue.X).(*ast.Ident); ok {
+									atomicUse[id] = true
+								}
+							}
+						}
+					}
+					return true
+				})
+				ast.Inspect(fd.Body, func(nd ast.Node) bool {
+					id, ok := nd.(*ast.Ident)
+					if !ok || atomicUse[id] {
+						return true
+					}
+					v, ok := pkg.TypesInfo.Uses[id].(*types.Var)
+					if !ok || v.Pkg() == nil || v.Parent() != v.Pkg().Scope() || reported[v] {
+						return true
+					}
+					seen++
+					ts := types.TypeString(v.Type(), nil)
+					if strings.HasPrefix(ts, "sync.") || strings.HasPrefix(ts, "*sync.") || strings.HasPrefix(ts, "sync/atomic.") {
+						return true
+					}
+					if e.neverAssigned(v) {
+						return true
+					}
+					reported[v] = true
+					n++
+					p := pkg.Fset.Position(id.Pos())
+					e.addObl(&Obligation{Name: fmt.Sprintf("%s#confine-sweep.%s", fn, v.Name()), Kind: "confine", Func: fn, Goal: False, Verdict: "sat", Solver: "engine",
+						Pos: fmt.Sprintf("%s:%d", p.Filename, p.Line), Note: "package-level variable " + v.Name() + " is assigned somewhere after initialisation and is used in " + fd.Name.Name + ", which is not under contract: that every use happens with its guard held (guarded directive) is not proved here"})
+					return true
+				})
+			}
+		}
+	}
+	e.notes = appendUnique(e.notes, fmt.Sprintf("confinement sweep over %s: %d uses of package-level variables in functions that are not under contract, all of variables that are never assigned after initialisation", strings.Join(pkgPaths, ", "), seen))
+}
